@@ -162,6 +162,10 @@ type FileCase struct {
 	Message  string          `json:"message,omitempty"`
 	Note     string          `json:"note,omitempty"`
 	Case     json.RawMessage `json:"case"`
+	// History: the cases this process evaluated right before the first failure (oldest first).
+	// A replay runs them first, so a failure that depends on state left behind by earlier
+	// calls (a cache, a pool, lazily initialised tables) reproduces from the file alone.
+	History []json.RawMessage `json:"history,omitempty"`
 }
 
 func writeAtomic(path string, data []byte) error {
@@ -389,6 +393,37 @@ type Checker[C any] struct {
 	// Risky, when set and true for a case, makes Run write pending.json before
 	// calling Check (unrecoverable process death is then attributable).
 	Risky func(c C) bool
+
+	ring      []C // the last historyLen cases evaluated by this process
+	ringPos   int
+	frozen    []C // history before the first failure of this process (kept for the shrunk cases too)
+	frozenEnc []json.RawMessage
+	recentEnc [][]byte // encodings of the last few armed cases (written into the pending file)
+	failed    bool
+}
+
+const historyLen = 1024
+
+func (k *Checker[C]) remember(c C) {
+	if k.failed {
+		return
+	}
+	if len(k.ring) < historyLen {
+		k.ring = append(k.ring, c)
+		return
+	}
+	k.ring[k.ringPos] = c
+	k.ringPos = (k.ringPos + 1) % historyLen
+}
+
+// Remember records a case that a grid evaluated directly (not through Eval), so that it is
+// part of the history written with a later failure.
+func (k *Checker[C]) Remember(c C) { k.remember(c) }
+
+func (k *Checker[C]) history() []C {
+	out := make([]C, 0, len(k.ring))
+	out = append(out, k.ring[k.ringPos:]...)
+	return append(out, k.ring[:k.ringPos]...)
 }
 
 func (k *Checker[C]) encode(c C) []byte {
@@ -425,7 +460,14 @@ func (k *Checker[C]) Eval(c C) *Failure {
 		if encoded == nil {
 			encoded = k.encode(c)
 		}
-		armed = armPending(k.ID, encoded)
+		armed = armPending(k.ID, encoded, k.recentEnc)
+		// the few cases before this one go into the pending file too (state left by earlier calls)
+		if len(encoded) <= 1<<16 {
+			k.recentEnc = append(k.recentEnc, encoded)
+			if len(k.recentEnc) > 4 {
+				k.recentEnc = k.recentEnc[1:]
+			}
+		}
 	}
 	var f *Failure
 	if pf := Try("harness check", func() { f = k.Check(c) }); pf != nil {
@@ -437,7 +479,13 @@ func (k *Checker[C]) Eval(c C) *Failure {
 		disarmPending()
 	}
 	if f != nil {
+		if !k.failed {
+			k.failed = true
+			k.frozen = k.history()
+		}
 		k.writeFail(c, f)
+	} else {
+		k.remember(c)
 	}
 	return f
 }
@@ -452,7 +500,21 @@ func (k *Checker[C]) Run(t TB, c C) {
 
 func (k *Checker[C]) writeFail(c C, f *Failure) {
 	fc := FileCase{Property: k.ID, Kind: f.Kind, Message: f.Msg, Case: k.encode(c)}
-	b, _ := json.MarshalIndent(fc, "", " ")
+	if k.frozenEnc == nil && len(k.frozen) > 0 { // encoded once, newest first, within a size budget
+		total := 0
+		for i := len(k.frozen) - 1; i >= 0; i-- {
+			e := k.encode(k.frozen[i])
+			if total += len(e); total > 1<<20 {
+				break
+			}
+			k.frozenEnc = append(k.frozenEnc, e)
+		}
+		for i, j := 0, len(k.frozenEnc)-1; i < j; i, j = i+1, j-1 {
+			k.frozenEnc[i], k.frozenEnc[j] = k.frozenEnc[j], k.frozenEnc[i]
+		}
+	}
+	fc.History = k.frozenEnc
+	b, _ := json.Marshal(fc)
 	// last failing case wins: rapid (and the native fuzzer's minimiser) re-run
 	// the property on ever smaller cases and finish with the minimal one.
 	_ = writeAtomic(filepath.Join(OutDir(), "fail.json"), b)
@@ -463,7 +525,7 @@ var pendingFile *os.File
 // armPending writes the running case in place into pending-<pid>.json (two
 // cheap syscalls, no rename); disarmPending truncates it. A non-empty file
 // after the process died names the case that killed it.
-func armPending(id string, encoded []byte) bool {
+func armPending(id string, encoded []byte, recent [][]byte) bool {
 	if pendingFile == nil {
 		f, err := os.OpenFile(filepath.Join(OutDir(), fmt.Sprintf("pending-%d.json", os.Getpid())), os.O_CREATE|os.O_RDWR|os.O_TRUNC, 0o644)
 		if err != nil {
@@ -472,8 +534,19 @@ func armPending(id string, encoded []byte) bool {
 		pendingFile = f
 	}
 	head := []byte(`{"property":"` + id + `","kind":"process-death","message":"the test process died (fatal runtime error) while this case was being executed","case":`)
-	buf := make([]byte, 0, len(head)+len(encoded)+1)
-	buf = append(append(append(buf, head...), encoded...), '}')
+	buf := make([]byte, 0, len(head)+len(encoded)+64)
+	buf = append(append(buf, head...), encoded...)
+	if len(recent) > 0 {
+		buf = append(buf, `,"history":[`...)
+		for i, r := range recent {
+			if i > 0 {
+				buf = append(buf, ',')
+			}
+			buf = append(buf, r...)
+		}
+		buf = append(buf, ']')
+	}
+	buf = append(buf, '}')
 	if _, err := pendingFile.WriteAt(buf, 0); err != nil {
 		return false
 	}
@@ -529,8 +602,19 @@ func (k *Checker[C]) Regress(t *testing.T) {
 			t.Fatalf("cannot decode case in %s: %v", p, err)
 		}
 		Label("regress-file", 1)
-		if f := k.Eval(c); f != nil {
-			t.Fatalf("VERIF-FAIL property=%s kind=%s file=%s: %s", k.ID, f.Kind, p, f.Msg)
+		// first what the failing process had evaluated before (state left behind by earlier calls)
+		for _, h := range fc.History {
+			var hc C
+			if err := json.Unmarshal(h, &hc); err == nil {
+				_ = Try("history case", func() { _ = k.Check(hc) })
+			}
+		}
+		// twice: checks that alternate between fresh and reused argument buffers (vk.Scratch) then
+		// see the case in both modes
+		for pass := 0; pass < 2; pass++ {
+			if f := k.Eval(c); f != nil {
+				t.Fatalf("VERIF-FAIL property=%s kind=%s file=%s: %s", k.ID, f.Kind, p, f.Msg)
+			}
 		}
 	}
 }
